@@ -15,11 +15,9 @@ for c in CASES:
     try:
         repo = os.path.join(d, 'repo')
         subprocess.check_call(['rsync', '-a', '--exclude', 'target', '--exclude', '.git', '/repo/', repo + '/'])
-        p = os.path.join(repo, c['file'])
-        s = open(p).read()
-        if c['old'] not in s:
-            print('%-26s STALE (pattern not found in %s)' % (c['id'], c['file'])); fails += 1; continue
-        open(p, 'w').write(s.replace(c['old'], c['new'], 1))
+        from cases import apply_case
+        if not apply_case(repo, c):
+            print('%-26s STALE (edit does not apply to %s)' % (c['id'], c['file'])); fails += 1; continue
         env = dict(os.environ, RSBDD_REPO=repo, RSBDD_EVIDENCE_DIR=os.path.join(d, 'evidence'))
         if run_tests:
             r = subprocess.run(['cargo', 'test', '--workspace', '--offline', '--no-fail-fast'], cwd=repo, env=dict(env, CARGO_TARGET_DIR=os.path.join(d, 'target')), stdout=subprocess.PIPE, stderr=subprocess.STDOUT, text=True)
@@ -43,5 +41,10 @@ for c in CASES:
     finally:
         shutil.rmtree(d, ignore_errors=True)
 json.dump(results, open(os.path.join(HERE, 'last_run.json'), 'w'), indent=1)
+if not args and not fails:
+    # a complete, clean run validates the corpus for this tree: the thorough tier uses the cases as positive controls on this tree only
+    sys.path.insert(0, os.path.join(VERIF, 'rules'))
+    import framework
+    open(os.path.join(HERE, 'validated_tree.txt'), 'w').write(framework.tree_hash('/repo') + '\n')
 print('self-test: %d case-checks, %d failed' % (len(results), fails))
 sys.exit(1 if fails else 0)
